@@ -178,6 +178,10 @@ impl NestedLoopSemiJoinExecutor {
 
     /// Expand the left row to a chunk with given length.
     fn left_row_to_chunk(&self, row: &RowRef<'_>, len: usize) -> DataChunk {
+        if self.left_types.is_empty() {
+            // a chunk without columns still has `len` rows
+            return DataChunk::no_column(len);
+        }
         self.left_types
             .iter()
             .zip(row.values())
